@@ -1,11 +1,28 @@
 CHECK = {
   'level': 'exploration',
   'engine': 'seqx',
-  'technique': 'bounded exhaustive enumeration of byte strings (all strings over a 16-symbol markup alphabet, all byte-prefixes of all sequences of 23 markup tokens, truncation/edit neighbourhoods of documents) through the real Xml::decode under ASan with the input slack poisoned, and of element trees through the real Xml::encode -> Xml::decode compared against a std-only tree model',
-  'level_text': 'placeholder',
-  'level_note': 'placeholder',
-  'rule': 'placeholder',
-  'parts': [{'bin': 'c07_xml', 'flavour': 'asan', 'deadline': {'quick': 600, 'thorough': 3000}}],
-  'bounds': {'quick': 'placeholder', 'thorough': 'placeholder'},
-  'assumptions': ['LC_ALL=C'],
+  'technique': 'bounded exhaustive enumeration of inputs through the real Xml::decode (every string over a 16-symbol markup alphabet, every byte-prefix of every sequence of 23 markup tokens, every short string of arbitrary bytes, truncation/edit neighbourhoods of documents) under ASan with the slack after the input NUL poisoned, and of element trees through the real Xml::encode -> Xml::decode compared with a std-only tree model',
+  'level_text': 'Xml::decode is one function with local state, so its states cannot be observed; the input space is enumerated instead. '
+                'Decode: every string over {< > / ! ? - & ; # x a = " \' space e-acute} up to the length bound; every byte-prefix of every sequence of the tokens '
+                '<a </a </ > /> " x=" " \' v &lt; &#38; &#x26; &bad; & <!-- --> "<?p " ?> <!D <![CDATA[ ]]> t space up to the token bound (= sequences also truncated at every byte); '
+                '"<?xml" followed by every alphabet string; every string of arbitrary non-NUL bytes up to length 2/3; three documents (prolog, DOCTYPE with internal subset, comments, PI, CDATA, '
+                'entity/decimal/hex references, single- and double-quoted attributes, names with : - . _ and non-ASCII) with every truncation, every 1-edit and every pair of edits within a window, and every single byte '
+                'substituted/inserted at every position. For each input: the call returns (per-item alarm), ASan is silent, and the result is null or a tree in which every child(i).parent() == the containing element, '
+                'checked over the whole tree through the public API. '
+                'Round trip: every tree with <= 2 (thorough 3) nodes over the full label sets (2 tags x {no attribute, x, y, x+y} x 9 values each = 200 element labels, 9 texts incl. "", & < > " \' e-acute, " v "); '
+                'every ordered tree shape with <= 5 nodes over 8 element labels (tag x attribute subset, values rotating through the 9 values) and all 9 texts, thorough also 6 nodes over 4 element labels; '
+                'linear chains to depth 12 with attributes on every level (also with names using : - . _ digits and non-ASCII) and each text as leaf. Each tree is encoded compact, decoded and compared '
+                '(tags, attribute sets, child order, text) modulo merging adjacent text nodes and dropping whitespace-only text (either order of the two operations is accepted); the indented output is checked in the same way '
+                'exactly when every text node is the sole child of its element.',
+  'level_note': 'Complete within the stated alphabets and bounds, no sampling. Not covered: inputs with an embedded NUL (decode takes a C string), trees larger than the bounds except chains, '
+                'meaning of character references (outside the statement), the dangling parent() of the returned root itself (outside the statement). Termination is observed through a generous alarm per work item, not a wall-clock oracle on single cases. '
+                'ASan in recover mode reports one error per code location per worker process, so after a memory error the list of failing inputs is not complete (the verdict is).',
+  'rule': 'odometer enumeration: alphabet^<=n strings; (k complete tokens) + (one of the 52 distinct non-empty token prefixes); byte^<=n; template x position x edit; pre-order token strings of labelled trees; '
+          'distinct_nontrivial = distinct inputs / trees by construction (token strings that already lie in the character space, edit neighbourhoods and chain truncations are counted in evaluations only)',
+  'parts': [{'bin': 'c07_xml', 'flavour': 'asan', 'deadline': {'quick': 900, 'thorough': 3600}}],
+  'bounds': {'quick': 'alphabet strings <= 5 symbols (1.1e6); token sequences <= 5 tokens with every byte cut (1.5e7); "<?xml" + <= 4 symbols; bytes^<=2; 3 documents: truncations, 1-edits, 2-edits within 3 positions, all single bytes; '
+                      'trees: <= 2 nodes full labels (4.2e4), <= 5 nodes x 8 element labels x 9 texts (3.6e6), chains to depth 12',
+             'thorough': 'alphabet strings <= 6 symbols (1.8e7); token sequences <= 6 tokens with every byte cut (3.5e8); "<?xml" + <= 5 symbols; bytes^<=3 (1.7e7); 2-edits within 12 positions; '
+                         'trees: <= 3 nodes full labels (1.7e7), <= 5 nodes x 8 labels, 6 nodes x 4 labels (9.3e6), chains to depth 12'},
+  'assumptions': ['LC_ALL=C', 'g++ -O2 + AddressSanitizer (recover mode), slack after each input NUL poisoned', 'null element = Xml for which operator! is true (what decode documents as failure)'],
 }
